@@ -257,6 +257,9 @@ def compute_posts(ctx, key, spec=()):
         for path, sv in leaves:
             if is_const(sv):
                 post.facts.append(("leafconst", path, sv))
+            elif is_entry_expr(sv) and _is_intlike(sv):
+                # the returned field is one expression over what the caller passed in: equal to it at the call site
+                post.facts.append(("eqleaf", path, sv))
         # relational facts: zone entries, and leaf-vs-entry bounds implied by unary facts
         for (a, b), k in P.zone.items():
             if exportable(a) and exportable(b):
@@ -331,6 +334,18 @@ def apply_posts(it, S_pre, S, t, args, R, posts, callee_body):
                 if c is not None and not is_const(x):
                     set_ty(x, f[2][1])
                     facts.append(("dom", x, Dom(c, c)))
+            elif f[0] == "eqleaf":
+                x = project(R, f[1])
+                y = translate(f[2], it, S_pre, args, argc)
+                if y is not None and not is_const(x):
+                    t_ = sv_type(f[2])
+                    if t_ is not None and sv_type(x) is None:
+                        set_ty(x, t_)
+                    facts.append(("le", x, y, 0))
+                    facts.append(("le", y, x, 0))
+                    dy = S_pre.dom(y)
+                    if dy != S_pre._default_dom(y, 0):
+                        facts.append(("dom", x, dy))
             elif f[0] == "le":
                 a = translate(f[1], it, S_pre, args, argc, post.leafmap, R)
                 b = translate(f[2], it, S_pre, args, argc, post.leafmap, R)
